@@ -5,7 +5,7 @@
    instance by its bookkeeping section (an instance superseded between returning and recording is treated as
    cancelled and its result dropped; the pinned suite relies on this). *)
 From Util Require Import Common.Base Common.ListLemmas Routine.Model Routine.Proofs Routine.ProofsC14 Routine.ProofsC14b Routine.Spec Routine.Sweep
-  Routine.ProofsMon.
+  Routine.ProofsC05 Routine.ProofsMonInv Routine.ProofsMon.
 Close Scope N_scope.
 
 (* nothing but API calls and retry-timer callbacks can start an instance or change the routine; the context the container
@@ -121,6 +121,23 @@ Example c14_example_success_final :
              [ESetCtx 1 false; ESetRoutine 1; EProceed 0 true; EReturn 0 ONil; EBook 0; ESetCtx 2 true; EAdvance 1000] in
   length (insts s) = 1 /\ rsucc (getr s 0) = true /\ bo s = Some ([100]%N, 0).
 Proof. vm_compute. repeat split; reflexivity. Qed.
+
+(* start()'s early return "the routine is still running" (non-forced start, r.ctx != nil && !r.exited && r.ctx.Err() == nil)
+   can never be taken: both callers of a non-forced start hand it a record without an instance context (SetContext has
+   just stopped the record, setRoutineLocked has just created it), and then the test is false whatever the other flags
+   are.  (Coverage shows the block as never executed; dropping `r.ctx.Err() == nil` from it changes no behaviour.) *)
+Theorem c14_start_still_running_branch_unreachable :
+  (forall s c r, r < length (recs s) -> rctx (getr (stop_rec (set_kctx s c) r) r) = None) /\
+  (forall s1 f arg, rctx (getr (set_routine (set_recs s1 (recs s1 ++ [new_rec f arg])) (Some (length (recs s1)))) (length (recs s1))) = None) /\
+  (forall s r ctx w, rctx (getr s r) = None ->
+     start_rec repaired s r ctx w false =
+     (if rsucc (getr s r) || Nat.eqb (rfn (getr s r)) 0 then s
+      else spawn (stop_rec s r) r ctx (match w with Some _ => w | None => lastexit (stop_rec s r) end))).
+Proof.
+  exact (conj (proj1 nonforced_start_sites_have_no_instance_context)
+              (conj (proj2 nonforced_start_sites_have_no_instance_context) start_still_running_test_false)).
+Qed.
+Print Assumptions c14_start_still_running_branch_unreachable.
 
 (* observation recorded while modelling the owner's cancellation of a root context (the property text does not speak
    about it): the retry callback tests `r.r.ctx != nil` but not `Err()`, so as long as no entry point has forgotten the
